@@ -1,0 +1,15 @@
+//go:build verif
+
+package eval
+
+// Hooks for the verification harness in /verif: built only with -tags verif.
+
+// VerifDisableCache makes every function-result cache lookup miss and every store a no-op,
+// so the same binary can run a program with memoization off.
+var VerifDisableCache bool
+
+// VerifCacheHits counts cache hits (to measure that a generated history actually exercised the cache).
+var VerifCacheHits int64
+
+func verifCacheOff() bool { return VerifDisableCache }
+func verifCacheHit()      { VerifCacheHits++ }
